@@ -570,9 +570,9 @@ def random_ops(rng, n, nobj):
                 ops.append(("deliver_all", p))
         elif r < 0.78:
             ops.append(("firex", rng.randrange(4), rng.choice(["ok", "ok", "err", "errx"])))
-        elif r < 0.93:
+        elif r < 0.95:
             ops.append(("releasex", rng.randrange(4)))
-        elif r < 0.965:
+        elif r < 0.97:
             ops.append(("lose", rng.choice([1, 2]), rng.choice([1, 2])))
         else:
             ops.append(("callx",) + random_call(rng, nobj))
@@ -719,11 +719,11 @@ def run(ctx):
     import collections
 
     r = ctx.mc("PbBrokerMC", "PbBrokerMC.cfg", coverage=False,
-               label="2 calls by either side (7 kinds, root or held reference), <= 2 references, every fragmentation, release and connectionLost position")
+               label="2 calls by either side (6 kinds, root or held reference), <= 2 references, 1-2 objects per side, every fragmentation, release and connectionLost position")
     if not r.ok:
         raise MachineryError("PbBroker spec violates its own invariants: " + r.error)
     if not ctx.quick:
-        r3 = ctx.mc("PbBrokerMC", "PbBrokerMC.thorough.cfg", coverage=False, label="3 calls, <= 2 references, 2 objects per side, re-entrant errbacks")
+        r3 = ctx.mc("PbBrokerMC", "PbBrokerMC.thorough.cfg", coverage=False, label="3 calls (7 kinds), <= 2 references, 1 object per side")
         if not r3.ok:
             raise MachineryError("PbBroker spec violates its own invariants: " + r3.error)
     rc = ctx.mc("PbBrokerMC", "PbBrokerMC.cov.cfg", label="coverage / vacuity guard on a sub-model (re-entrant errbacks included)")
@@ -734,7 +734,7 @@ def run(ctx):
     if not any(ctx.coverage_actions.get("PbBrokerMC." + n, 0) for n in ("ConnLost", "Lose")):
         raise MachineryError("vacuity: connectionLost never taken in PbBrokerMC")
     # negative controls: the interesting situations are reachable in the model (each witness invariant must be VIOLATED)
-    for w in ("NeverOutOfOrder", "NeverReexported", "NeverQuietAgain"):
+    for w in (("NeverQuietAgain",) if ctx.quick else ("NeverOutOfOrder", "NeverReexported", "NeverQuietAgain")):
         rn = ctx.mc("PbBrokerMC", "PbBrokerMC.%s.cfg" % w, must_pass=False, coverage=False, label="negative control: %s is reachable" % w[5:])
         if rn.ok or rn.kind != "invariant":
             raise MachineryError("negative control %s not violated (%s)" % (w, rn.kind or "ok"))
